@@ -13,7 +13,7 @@ Example C19_nonvacuous :
   boundary d 3 /\ boundary d 8 /\ o2p d 3 = (0, 2) /\ o2p d 2 = (0, 2) /\ o2p d 8 = (1, 1) /\
   p2o d (1, 1) = Some 8 /\ p2o d (0, 9) = Some 3 /\ p2o d (1, 2) = None /\
   Z.of_nat (length d) < 2 ^ 32 /\ text_blen d < 2 ^ 64 - 1 /\
-  Known_C19_span_start_max 3 = false /\ Known_C19_astral_before d 3 = false /\
+  Known_C19_astral_before d 3 = false /\
   Known_C19_astral_before d 8 = true /\
   span_to_range_m Trap d 9 2 = Val ((1, 1), (1, 1)) /\
   caret_m Trap d 1 3 = Val (1, 2, [97; 233], 1, 2).
@@ -70,28 +70,30 @@ Theorem C19_inside_iff_valid : forall d p, inside d p <-> valid_pos d p.
 Proof. exact inside_iff_valid. Qed.
 Print Assumptions C19_inside_iff_valid.
 
-(* T7  the range of ANY span (empty, reversed, past the end, mid-scalar; [b] is unconstrained) is
-       defined, start <= end, both ends inside the document — on the complement of the known class
-       [start = usize::MAX] *)
+(* T7  the range of ANY span (empty, reversed, past the end, mid-scalar, start = usize::MAX; [b] is
+       unconstrained) is defined in both build modes, start <= end, both ends inside the document *)
 Theorem C19_range_wf : forall m d a b,
-  Z.of_nat (length d) < 2 ^ 32 -> 0 <= a < 2 ^ 64 -> Known_C19_span_start_max a = false ->
+  Z.of_nat (length d) < 2 ^ 32 -> 0 <= a < 2 ^ 64 ->
   exists s e, span_to_range_m m d a b = Val (s, e) /\
     pos_le s e /\ valid_pos d s /\ valid_pos d e /\
-    s = o2p d a /\ (a < b -> e = o2p d b) /\ (b <= a -> e = o2p d (a + 1)).
+    s = o2p d a /\ (a < b -> e = o2p d b) /\ (b <= a -> e = o2p d (Z.min (a + 1) (2 ^ 64 - 1))).
 Proof. exact range_wf. Qed.
 Print Assumptions C19_range_wf.
 
-(* ... and in the class it fails: debug builds panic on every document, release builds can return
-   a reversed range *)
-Theorem C19_range_wf_refuted :
+(* regression witness for the repaired finding span-start-usize-max (`start + 1` overflowed: debug
+   builds panicked, release builds could return end < start): the formerly failing class is now
+   well-formed in both modes, and the old witness gives the empty range at the end of the text *)
+Theorem C19_range_wf_usize_max_regression :
   Known_C19_span_start_max (2 ^ 64 - 1) = true /\
-  (forall d b, Z.of_nat (length d) < 2 ^ 32 -> span_to_range_m Trap d (2 ^ 64 - 1) b = Trp Overflow) /\
-  exists d b s e, span_to_range_m Wrap d (2 ^ 64 - 1) b = Val (s, e) /\ pos_lt e s.
+  (forall m d b, Z.of_nat (length d) < 2 ^ 32 ->
+     exists s e, span_to_range_m m d (2 ^ 64 - 1) b = Val (s, e) /\ pos_le s e /\
+       s = o2p d (text_blen d) /\ valid_pos d e) /\
+  span_to_range_m Trap [97] (2 ^ 64 - 1) 0 = Val ((0, 1), (0, 1)) /\
+  span_to_range_m Wrap [97] (2 ^ 64 - 1) 0 = Val ((0, 1), (0, 1)).
 Proof.
-  split; [reflexivity|]. split; [exact range_trap|].
-  exists [97], 0, (0, 1), (0, 0). split; [vm_compute; reflexivity | right; cbn; lia].
+  split; [reflexivity|]. split; [exact range_usize_max|]. split; vm_compute; reflexivity.
 Qed.
-Print Assumptions C19_range_wf_refuted.
+Print Assumptions C19_range_wf_usize_max_regression.
 
 (* T8  the u32 line/character counters cannot overflow on a document of fewer than 2^32 scalars:
        the machine versions then compute the pure functions in both build modes *)
@@ -120,14 +122,14 @@ Print Assumptions C19_line_info_consistent.
        caret line never extends more than one cell past the source line; inside the document the
        underline is the span clipped to its first line) and span_to_range; [e] is unconstrained *)
 Theorem C19_render_total : forall m d s e,
-  0 <= s < 2 ^ 64 - 1 -> text_blen d < 2 ^ 64 - 1 -> Z.of_nat (length d) < 2 ^ 32 ->
+  0 <= s < 2 ^ 64 -> text_blen d < 2 ^ 64 - 1 -> Z.of_nat (length d) < 2 ^ 32 ->
   (exists ln cn t sp ul, caret_m m d s e = Val (ln, cn, t, sp, ul) /\
      line_info_m m d s = Val (ln, cn, t) /\
      1 <= cn <= text_blen t + 1 /\ sp = cn - 1 /\ 1 <= ul /\ sp + ul <= text_blen t + 1 /\
      (e <= s -> ul = 1) /\
      (s <= text_blen d -> s < e -> ul = Z.max 1 (Z.min e (s - sp + text_blen t) - s))) /\
   (exists r, span_to_range_m m d s e = Val r).
-Proof. exact render_total. Qed.
+Proof. exact render_total_all. Qed.
 Print Assumptions C19_render_total.
 
 (* T11 LSP meaning of [character] (UTF-16 code units, the default encoding; the server negotiates
